@@ -107,3 +107,36 @@ theorem yearSearch_first_year (U : UEnv) (w pre : CPs) (hm : pre ∈ yearPrefixe
   exact ⟨h2, h3, fun k hk hko => h4 k (Nat.zero_le _) hk hko⟩
 
 end Pcfg.Detect
+
+namespace Pcfg.Detect
+open Generated.Tables
+
+/-- **`detect_context_sensitive` as a whole**: a context-sensitive string is detected in a section exactly when some string of the
+table occurs in it - for `#1` only when its *first* occurrence is not the start of a longer number (`#12`: the character two places
+behind the end of `#1`... i.e. at offset 3, is a digit) -/
+theorem detectContext_isSome_iff (U : UEnv) (text : CPs) :
+    (detectContext U text).isSome = true ↔
+      ∃ rep ∈ contextList, ∃ si, findSub text rep = some si ∧
+        (rep == cpsOfString "#1" && decide (si + 3 < text.length) && U.isDigit (text.getD (si + 3) 0)) = false := by
+  unfold detectContext
+  rw [List.findSome?_isSome_iff]
+  constructor
+  · rintro ⟨rep, hm, hs⟩
+    refine ⟨rep, hm, ?_⟩
+    cases hf : findSub text rep with
+    | none => rw [hf] at hs; cases hs
+    | some si =>
+      rw [hf] at hs
+      simp only at hs
+      refine ⟨si, rfl, ?_⟩
+      cases hc : (rep == cpsOfString "#1" && decide (si + 3 < text.length) && U.isDigit (text.getD (si + 3) 0)) with
+      | false => rfl
+      | true => rw [if_pos hc] at hs; cases hs
+  · rintro ⟨rep, hm, si, hf, hc⟩
+    refine ⟨rep, hm, ?_⟩
+    rw [hf]
+    simp only
+    rw [if_neg (by rw [hc]; simp)]
+    rfl
+
+end Pcfg.Detect
